@@ -469,6 +469,13 @@ func (e *ksEngine) returnShape(g *ssa.Function, d int) (KeyShape, bool) {
 
 func fixedResult(callee *types.Func) (int, bool) {
 	sig := callee.Type().(*types.Signature)
+	// digest helpers of dependencies with a fixed output width
+	if callee.Pkg() != nil && sig.Recv() == nil {
+		switch callee.Pkg().Path() + "." + callee.Name() {
+		case "github.com/btcsuite/btcutil.Hash160":
+			return 20, true // ripemd160(sha256(x))
+		}
+	}
 	if sig.Results().Len() != 1 {
 		return 0, false
 	}
